@@ -8,7 +8,7 @@
    in_interval m e s p (the ES5 8.5 reading stated at the top of Spec.v).
    The correspondence run ties otto to Model and Spec on every sampled input. *)
 From Coq Require Import ZArith List Bool Lia.
-From Otto Require Import Common.Double C06.Spec C06.SpecText C06.Model C06.Proofs C06.ProofsRound.
+From Otto Require Import Common.Double C06.Spec C06.SpecText C06.Model C06.Proofs C06.ProofsRound C06.ProofsLayout.
 Import ListNotations.
 Open Scope Z_scope.
 
@@ -90,6 +90,23 @@ Theorem C06_exponent_text : forall ex, ex <> 0 -> ch_e :: go_exp2 true ex = exp_
 Proof. exact exp_text_agrees. Qed.
 Print Assumptions C06_exponent_text.
 
+(* ---- 9.8.1 steps 6-10 (repaired threshold): for all digit strings and point positions n, what
+   floatToString builds from Go's %f / %e layouts and its exponent rewrite is the 9.8.1 layout, given that
+   its exponent-form test comes out as n > 21 or n <= -6 ---- *)
+Theorem C06_layout : forall neg ds n, ds <> [] ->
+  otto_render ((21 <? n) || (n <=? -6)) neg ds n = with_sign neg (layout ds n).
+Proof. exact render_is_layout. Qed.
+Print Assumptions C06_layout.
+
+(* hence Value.string() of a float64 is the ES5 text for every bit pattern for which the test
+   abs >= 1e21 || abs < 1e-6 agrees with the digit position (compared on every sampled double) *)
+Theorem C06_tostring_refines : forall bits,
+  (forall neg m e s p, decode bits = DFin neg m e -> m <> 0 -> shortest_fast m e = Some (s, p) ->
+     exp_form m e = let n := p + lenZ (dec_digits s) in (21 <? n) || (n <=? -6)) ->
+  value_string bits = num_to_string bits.
+Proof. exact value_string_is_spec. Qed.
+Print Assumptions C06_tostring_refines.
+
 (* ---- 15.7.4.2 / 15.1.2.2: printing an integer in any radix and scanning it back are inverse ---- *)
 Theorem C06_radix_roundtrip : forall r n, 2 <= r <= 36 -> 0 <= n ->
   let '(ds, rest) := scan_radix r (radix_digits r n) in rest = [] /\ radix_value r ds = n.
@@ -98,16 +115,17 @@ Print Assumptions C06_radix_roundtrip.
 
 (* ---- 15.7.4.5: below 10^21, away from exact decimal ties and from -0, otto's toFixed (Go's
    half-even 'f' format, range test included) is the ES5 function, for every double and argument ---- *)
-Theorem C06_toFixed_partial : forall bits f big neg m e,
+Theorem C06_toFixed_partial : forall bits f neg m e,
   decode bits = DFin neg m e -> le_pow10 21 m e = false -> (m = 0 -> neg = false) ->
-  decimal_tie m e f = false -> m_to_fixed big bits f = to_fixed bits f.
+  decimal_tie m e f = false -> m_to_fixed bits f = to_fixed bits f.
 Proof. exact toFixed_partial. Qed.
 Print Assumptions C06_toFixed_partial.
 
 (* ---- otto's deviations: "model = spec" refuted with concrete witnesses ---- *)
-Theorem C06_log10_boundary_refuted : exists bits big, value_string big bits <> num_to_string bits.
-Proof. exists 0x444B1AE4D6E2EF4F, true. vm_compute. discriminate. Qed.
-Print Assumptions C06_log10_boundary_refuted.
+(* String(89634963422590256): the integer literal is an int64 inside otto and prints all 17 digits *)
+Theorem C06_int_literal_refuted : exists bits, value_string_k true bits <> num_to_string bits.
+Proof. exists 4860482583519306579. vm_compute. discriminate. Qed.
+Print Assumptions C06_int_literal_refuted.
 
 Theorem C06_radix_big_refuted : exists bits r, Some (number_to_string_radix bits r) <> to_radix_int bits r.
 Proof. exists 0x4450000000000000, 16. vm_compute. discriminate. Qed.
@@ -117,11 +135,11 @@ Theorem C06_radix_fraction_refuted : exists bits r, number_to_string_radix bits 
 Proof. exists 0x3FE0000000000000, 2. vm_compute. split; [reflexivity | discriminate]. Qed.
 Print Assumptions C06_radix_fraction_refuted.
 
-Theorem C06_toFixed_tie_refuted : exists bits f, m_to_fixed false bits f <> to_fixed bits f.
+Theorem C06_toFixed_tie_refuted : exists bits f, m_to_fixed bits f <> to_fixed bits f.
 Proof. exists 0x4004000000000000, 0. vm_compute. discriminate. Qed.
 Print Assumptions C06_toFixed_tie_refuted.
 
-Theorem C06_toFixed_negzero_refuted : exists f, m_to_fixed false nzero_bits f <> to_fixed nzero_bits f.
+Theorem C06_toFixed_negzero_refuted : exists f, m_to_fixed nzero_bits f <> to_fixed nzero_bits f.
 Proof. exists 2. vm_compute. discriminate. Qed.
 Print Assumptions C06_toFixed_negzero_refuted.
 
@@ -142,19 +160,25 @@ Theorem C06_toNumber_grammar_refuted : exists s, m_parse_number s <> str_to_numb
 Proof. exists [105; 110; 102]. vm_compute. discriminate. Qed.
 Print Assumptions C06_toNumber_grammar_refuted.
 
-(* "-0" *)
-Theorem C06_parseInt_negzero_refuted : exists s, m_parse_int s nan_bits <> parse_int s nan_bits.
-Proof. exists [45; 48]. vm_compute. discriminate. Qed.
-Print Assumptions C06_parseInt_negzero_refuted.
+(* 15.1.2.2 steps 13-16 below 2^63 (repaired: -0 is produced): for every sign, radix and digit list,
+   otto's int64 path returns sign * the Number value for mathInt; the radix coercion is ToInt32 *)
+Theorem C06_parseInt_value_exact : forall neg base ds, radix_value base ds < 2 ^ 63 ->
+  m_parse_int_value neg base ds = signed_bits neg (round_int (radix_value base ds)).
+Proof. exact parse_int_value_exact. Qed.
+Print Assumptions C06_parseInt_value_exact.
+
+Theorem C06_parseInt_radix_coercion : forall bits, m_to_int32 bits = to_int32 bits.
+Proof. exact to_int32_agrees. Qed.
+Print Assumptions C06_parseInt_radix_coercion.
 
 (* "8000000000000401" in radix 16 *)
 Theorem C06_parseInt_big_refuted : exists s r, m_parse_int s r <> parse_int s r.
 Proof. exists [56; 48; 48; 48; 48; 48; 48; 48; 48; 48; 48; 48; 48; 52; 48; 49], 0x4030000000000000. vm_compute. discriminate. Qed.
 Print Assumptions C06_parseInt_big_refuted.
 
-(* "1e1000" *)
+(* "1_0" (the overflow retry is repaired: "1e1000" now agrees, see the Example below) *)
 Theorem C06_parseFloat_refuted : exists s, m_parse_float s <> parse_float s.
-Proof. exists [49; 101; 49; 48; 48; 48]. vm_compute. discriminate. Qed.
+Proof. exists [49; 95; 48]. vm_compute. discriminate. Qed.
 Print Assumptions C06_parseFloat_refuted.
 
 (* 0x8000000000000401 *)
@@ -175,6 +199,17 @@ Example C06_decimal_rounds_met :   (* "0.1": s = 1, p = -1, exponent -56 *)
   round_at (1 * 10 ^ Z.max (-1) 0) (10 ^ Z.max (- -1) 0) (-56) = 0x1999999999999A /\
   (0x1999999999999A =? 2 ^ 52) && (-1074 <? -56) = false.
 Proof. vm_compute. split; reflexivity. Qed.
+Example C06_parseFloat_overflow_agrees : m_parse_float [49; 101; 49; 48; 48; 48] = parse_float [49; 101; 49; 48; 48; 48].
+Proof. vm_compute. reflexivity. Qed.
+Example C06_parseInt_negzero_agrees : m_parse_int [45; 48] nan_bits = parse_int [45; 48] nan_bits /\ parse_int [45; 48] nan_bits = nzero_bits.
+Proof. vm_compute. split; reflexivity. Qed.
+Example C06_threshold_agrees :   (* the largest double below 1e21 and the one just below 1e-6 *)
+  value_string 0x444B1AE4D6E2EF4F = num_to_string 0x444B1AE4D6E2EF4F /\ value_string 0x3EB0C6F7A0B5ED8C = num_to_string 0x3EB0C6F7A0B5ED8C.
+Proof. vm_compute. split; reflexivity. Qed.
+Example C06_layout_met :   (* 1e21 = 0x1B1AE4D6E2EF5 * 2^20... : digits "1", n = 22, exponent form on both sides *)
+  decode 0x444B1AE4D6E2EF50 = DFin false 0x1B1AE4D6E2EF50 17 /\ shortest_fast 0x1B1AE4D6E2EF50 17 = Some (1, 21) /\
+  exp_form 0x1B1AE4D6E2EF50 17 = ((21 <? 21 + lenZ (dec_digits 1)) || (21 + lenZ (dec_digits 1) <=? -6)).
+Proof. vm_compute. repeat split; reflexivity. Qed.
 Example C06_exponent_text_met : ch_e :: go_exp2 true (-7) = exp_part (-7).
 Proof. vm_compute. reflexivity. Qed.
 Example C06_radix_met : scan_radix 16 (radix_digits 16 255) = ([15; 15], []).
